@@ -23,6 +23,27 @@ pub fn fmt_plain(
     write!(w, "{}", r.args())
 }
 
+/// A message whose Display implementation logs another record (recursive logging on one thread).
+struct RecMsg<'a> {
+    l: &'a dyn log::Log,
+    inner: String,
+    outer: String,
+    lvl: log::Level,
+}
+impl std::fmt::Display for RecMsg<'_> {
+    fn fmt(&self, f: &mut std::fmt::Formatter<'_>) -> std::fmt::Result {
+        self.l.log(
+            &log::Record::builder()
+                .args(format_args!("{}", self.inner))
+                .level(self.lvl)
+                .target("m")
+                .module_path(Some("m"))
+                .build(),
+        );
+        f.write_str(&self.outer)
+    }
+}
+
 fn leak(s: &str) -> &'static str {
     Box::leak(s.to_string().into_boxed_str())
 }
@@ -370,6 +391,7 @@ pub fn run_scenario(sc: &Value, ex: &mut Exec) -> usize {
     for st in steps {
         let op = st["op"].as_str().unwrap_or("?").to_string();
         let mut ev = json!({"ev": op});
+        let mut pending_inner: Option<(u64, usize)> = None;
         let dir = root.join(&cfg.subdir);
         let mut sync_point = false;
         let ret: String = match op.as_str() {
@@ -396,6 +418,16 @@ pub fn run_scenario(sc: &Value, ex: &mut Exec) -> usize {
                 let anon = obs::is_anonymous(len, le);
                 // the id of a record is its position among all Log steps of the scenario (anonymous records,
                 // which are too short to carry it, count as well) - the same numbering the specification uses
+                // recursive: the message logs an inner record while it is formatted; the inner record is written
+                // first and takes the first id, the outer one the next
+                let recursive = st.get("recursive").and_then(|v| v.as_bool()).unwrap_or(false) && run.logger.is_some();
+                let ilen = st.get("ilen").and_then(|v| v.as_u64()).unwrap_or(12).max(9 + le as u64) as usize;
+                let mut inner_msg = String::new();
+                if recursive {
+                    next_id += 1;
+                    inner_msg = obs::message(next_id, ilen, le);
+                    pending_inner = Some((next_id, ilen));
+                }
                 next_id += 1;
                 let id = if anon { 0 } else { next_id };
                 let msg = match st.get("msg").and_then(|v| v.as_str()) {
@@ -424,9 +456,12 @@ pub fn run_scenario(sc: &Value, ex: &mut Exec) -> usize {
                             if st.get("query").and_then(|v| v.as_bool()).unwrap_or(false) {
                                 let _ = l.enabled(&md);
                             }
+                            let rm = RecMsg { l: &**l, inner: inner_msg.clone(), outer: msg.clone(), lvl };
+                            let plain_args = format_args!("{}", msg);
+                            let rec_args = format_args!("{}", rm);
                             l.log(
                                 &log::Record::builder()
-                                    .args(format_args!("{}", msg))
+                                    .args(if recursive { rec_args } else { plain_args })
                                     .level(lvl)
                                     .target(target)
                                     .module_path(if nomod { None } else { Some("m") })
@@ -910,6 +945,12 @@ pub fn run_scenario(sc: &Value, ex: &mut Exec) -> usize {
                 .map(|(a, b, _)| json!([a, b]))
                 .collect::<Vec<_>>());
         }
+        // creation-time table: a file is born in the step that created it, also when this step is not observed
+        if let Ok(rd) = std::fs::read_dir(root.join(&cfg.subdir)) {
+            for e in rd.flatten() {
+                let _ = hh.birth(&e.path());
+            }
+        }
         let observing = obs_every
             || sync_point
             || matches!(
@@ -953,6 +994,22 @@ pub fn run_scenario(sc: &Value, ex: &mut Exec) -> usize {
             last_cur = curf;
             hh.record.store(was, Ordering::SeqCst);
             ev["obs"] = o;
+        }
+        if let Some((iid, ilen)) = pending_inner {
+            if ev["ret"] == "ok" {
+                // the inner record of a recursive call: an event of its own, before the outer one, without observation
+                let mut iv = ev.clone();
+                iv["id"] = json!(iid);
+                iv["len"] = json!(ilen);
+                iv["o"] = json!(false);
+                iv["inner"] = json!(true);
+                iv["probe"] = json!(false);
+                if let Some(o) = iv.as_object_mut() {
+                    o.remove("obs");
+                    o.remove("hex");
+                }
+                emit(ex, iv);
+            }
         }
         emit(ex, ev);
     }
